@@ -8,7 +8,7 @@
 (* condition holds; no operation returned that had to block).                  *)
 (*                                                                            *)
 (* Events:  reset(cap, nil)                                                    *)
-(*          call(id, op, k, meth, nb, val, pre, target)                        *)
+(*          call(id, op, k, meth, nb, val, pre, target, bad)                   *)
 (*               op = "start": a ChanSend / ChanReceive method (pre: its       *)
 (*                    context was cancelled before the call)                   *)
 (*               op = "cancel": cancel the context of call `target`            *)
@@ -38,7 +38,7 @@ Reset == /\ More /\ Ev.ev = "reset"
 Call == /\ More /\ Ev.ev = "call"
         /\ IF Ev.op = "start"
              THEN /\ s' = StartSucc(s, Ev.id, Ev.k, Ev.meth, Ev.nb, Ev.val, Ev.pre,
-                                    IF Ev.meth = "sconsume" THEN <<Ev.val \o "x", Ev.val \o "y">> ELSE <<>>)
+                                    IF Ev.meth = "sconsume" THEN <<Ev.val \o "x", Ev.val \o "y">> ELSE <<>>, Ev.bad)
                   /\ UNCHANGED aux
              ELSE /\ aux' = aux \cup {[id |-> Ev.id, op |-> Ev.op, target |-> Ev.target, lin |-> FALSE, res |-> ""]}
                   /\ UNCHANGED s
